@@ -554,4 +554,45 @@ example : div 2 ⟨2, 1, 1, [5]⟩ ⟨2, -1, 1, [7]⟩ = .ok ⟨2, -2, 0, [0x6db
 example : ui_div 2 1 ⟨2, 1, 1, [3]⟩ = .ok ⟨2, 2, 0, [0x5555555555555555, 0x5555555555555555]⟩ := by decide
 example : div 2 ⟨2, 1, 1, [5]⟩ ⟨2, 0, 0, []⟩ = .div0 := by decide
 
+
+/-! ### mpf_sqrt, mpf_sqrt_ui
+
+No square root function on ℚ: the bound is stated in squared form.  `r ≤ √u < r·(1 + 2^(−p))` is
+`r² ≤ u < (r·(1 + 1/B^(prec−1)))²` with r > 0, which implies |r − √u| < 2^(−p)·√u < 2^(2−p)·√u. -/
+
+/-- mpf_sqrt of a positive operand: returns normally; format rules; r ≤ √u < r·(1 + 2^(−p));
+    and r is the exact root whenever u has a root that fits in p bits. -/
+theorem mpf_sqrt_err (prec : ℕ) (hp : 1 ≤ prec) (u : F) (hu : OpWF u) (hpos : 0 < u.size) :
+    ∃ r, sqrt prec u = .ok r ∧ WF r ∧ 0 < toQ r ∧ (toQ r) ^ 2 ≤ toQ u ∧
+      toQ u < (toQ r * (1 + 1 / (B : ℚ) ^ (prec - 1))) ^ 2 ∧
+      (∀ x : ℚ, 0 ≤ x → x ^ 2 = toQ u → Fits x (PREC_TO_BITS prec) → toQ r = x) :=
+  sqrt_spec prec hp u hu hpos
+
+/-- square root of a negative operand raises; of zero it is a well-formed zero -/
+theorem mpf_sqrt_neg_zero (prec : ℕ) (u : F) :
+    (u.size < 0 → sqrt prec u = .sqrtneg) ∧ (u.size = 0 → sqrt prec u = .ok (zero prec)) := by
+  unfold sqrt
+  exact ⟨fun h => by rw [if_pos h], fun h => by rw [if_neg (by omega), if_pos h]⟩
+
+/-- mpf_sqrt_ui (0 < w < 2^64). -/
+theorem mpf_sqrt_ui_err (prec : ℕ) (hp : 1 ≤ prec) (w : ℕ) (hw0 : w ≠ 0) (hwB : w < B) :
+    WF (sqrt_ui prec w) ∧ 0 < toQ (sqrt_ui prec w) ∧ (toQ (sqrt_ui prec w)) ^ 2 ≤ w ∧
+      (w : ℚ) < (toQ (sqrt_ui prec w) * (1 + 1 / (B : ℚ) ^ (prec - 1))) ^ 2 ∧
+      (∀ x : ℚ, 0 ≤ x → x ^ 2 = w → Fits x (PREC_TO_BITS prec) → toQ (sqrt_ui prec w) = x) := by
+  obtain ⟨r, h1, h2, h3, h4, h5, h6⟩ := sqrt_spec prec hp (ofLimb w) (OpWF_ofLimb w hw0 hwB) (by simp [ofLimb])
+  rw [sqrt_ui_eq_sqrt prec hp w hw0] at h1
+  injection h1 with h1
+  subst h1
+  rw [toQ_ofLimb] at h4 h5 h6
+  exact ⟨h2, h3, h4, h5, h6⟩
+
+-- non-vacuity: √5 to 2 limbs, √4 exactly, negative operand
+example : ∃ r, sqrt 2 ⟨2, 1, 1, [5]⟩ = .ok r ∧ WF r ∧ (toQ r) ^ 2 ≤ 5 := by
+  obtain ⟨r, h1, h2, _, h4, _⟩ := mpf_sqrt_err 2 (by norm_num) ⟨2, 1, 1, [5]⟩ (by decide) (by decide)
+  exact ⟨r, h1, h2, by simpa [toQ, val] using h4⟩
+example : toQ (sqrt_ui 2 4) = 2 :=
+  (mpf_sqrt_ui_err 2 (by norm_num) 4 (by norm_num) (by rw [B_eq]; norm_num)).2.2.2.2 2 (by norm_num) (by norm_num)
+    ⟨1, 1, by norm_num, by norm_num [PREC_TO_BITS]⟩
+example : sqrt 3 ⟨2, -1, 1, [5]⟩ = .sqrtneg := by decide
+
 end Mpir.Mpf
